@@ -471,6 +471,111 @@ func TestC20(t *testing.T) {
 			run.Sample(map[string]any{"kind": "resolver", "input": str, "identifiers": g.ids, "all_valid": g.allValid, "all_equal": g.allEqual})
 		}
 	})
+	// metadata built through the Metadata API and attached to an identifier: both resolvers see through it, the parsed
+	// metadata is what was set (sorted, unique keys, last value wins), and joining identifiers is undone by resolution
+	run.ForEach("metadata-roundtrip", vt.N(20000, 300000), func(c vt.CaseID, rng *rand.Rand, s *vt.Slot) {
+		viol := func(sig, what string, d map[string]any) { run.Violation(c, "metadata/"+sig, what, d) }
+		alpha := "abcXYZ019-_"
+		word := func(minLen int) string {
+			b := make([]byte, minLen+rng.IntN(4))
+			for i := range b {
+				b[i] = alpha[rng.IntN(len(alpha))]
+			}
+			return string(b)
+		}
+		ids := []string{"a", "tenant-1", "Z9", "(ok)", "it's", "star*", "!", strings.Repeat("x", 150), "a.b", "..."}
+		t := ids[rng.IntN(len(ids))]
+		model := map[string]string{}
+		var md tenant.Metadata
+		var sets []string
+		for n := rng.IntN(5); n > 0; n-- {
+			k, v := word(1), word(0)
+			if len(model) > 0 && rng.IntN(3) == 0 {
+				for k2 := range model { // overwrite an existing key
+					k = k2
+					break
+				}
+			}
+			if rng.IntN(2) == 0 {
+				md.Set(k, v)
+			} else {
+				md = md.With(k, v)
+			}
+			model[k] = v
+			sets = append(sets, k+"="+v)
+		}
+		keys := make([]string, 0, len(model))
+		for k := range model {
+			keys = append(keys, k)
+		}
+		sort.Strings(keys)
+		wantEnc := ""
+		for _, k := range keys {
+			wantEnc += ":" + k + "=" + model[k]
+		}
+		org := md.WithTenant(t)
+		d := func() map[string]any { return map[string]any{"tenant": t, "sets": sets, "org_id": org} }
+		run.Eval("m|"+org, len(model) > 0)
+		if md.Encode() != wantEnc || md.IsEmpty() != (len(model) == 0) {
+			viol("encode", fmt.Sprintf("Metadata encodes as %q, the pairs set give %q", md.Encode(), wantEnc), d())
+		}
+		if org != t+wantEnc {
+			viol("with-tenant", fmt.Sprintf("WithTenant gives %q", org), d())
+		}
+		var gotKeys []string
+		for k, v := range md.Iter() {
+			gotKeys = append(gotKeys, k)
+			if mv, ok := model[k]; !ok || mv != v {
+				viol("iter", fmt.Sprintf("Iter yields %s=%s, set was %q (present %v)", k, v, mv, ok), d())
+			}
+		}
+		if fmt.Sprint(gotKeys) != fmt.Sprint(keys) {
+			viol("iter", fmt.Sprintf("Iter yields keys %v, want the sorted unique keys %v", gotKeys, keys), d())
+		}
+		for _, k := range keys {
+			if v, ok := md.Get(k); !ok || v != model[k] || !md.Has(k) {
+				viol("get", fmt.Sprintf("Get(%s) = %q,%v; set was %q", k, v, ok, model[k]), d())
+			}
+		}
+		if md.Has("no-such-key") {
+			viol("get", "Has reports a key that was never set", d())
+		}
+		ctx := user.InjectOrgID(context.Background(), org)
+		id1, err1 := tenant.TenantID(ctx)
+		idsN, errN := tenant.TenantIDs(ctx)
+		idsM, errM := tenant.NewMultiResolver().TenantIDs(ctx)
+		idX, mdX, errX := tenant.ExtractWithMetadata(ctx)
+		if err1 != nil || id1 != t {
+			viol("single-resolver", fmt.Sprintf("TenantID = %q, %v for a valid identifier with API-built metadata", id1, err1), d())
+		}
+		if errN != nil || len(idsN) != 1 || idsN[0] != t || errM != nil || fmt.Sprint(idsM) != fmt.Sprint(idsN) {
+			viol("multi-resolver", fmt.Sprintf("TenantIDs = %v, %v; MultiResolver.TenantIDs = %v, %v", idsN, errN, idsM, errM), d())
+		}
+		if errX != nil || idX != t || mdX.Encode() != wantEnc {
+			viol("extract-with-metadata", fmt.Sprintf("ExtractWithMetadata = %q, %q, %v", idX, mdX.Encode(), errX), d())
+		}
+		if tenant.TrimMetadata(org) != t {
+			viol("trim", fmt.Sprintf("TrimMetadata = %q", tenant.TrimMetadata(org)), d())
+		}
+		// the same tenant twice with different metadata is still one tenant; joined identifiers resolve to their set
+		other := ids[rng.IntN(len(ids))]
+		list := []string{org, t + ":zz=1", other, t}
+		rng.Shuffle(len(list), func(i, j int) { list[i], list[j] = list[j], list[i] })
+		joined := tenant.JoinTenantIDs(list)
+		want := []string{t}
+		if other != t {
+			want = append(want, other)
+		}
+		sort.Strings(want)
+		got, err := tenant.TenantIDsFromOrgID(joined)
+		if err != nil || fmt.Sprint(got) != fmt.Sprint(want) {
+			viol("join-then-resolve", fmt.Sprintf("TenantIDsFromOrgID(JoinTenantIDs(%q)) = %v, %v; want %v", list, got, err, want), d())
+		}
+		_, errS := tenant.TenantID(user.InjectOrgID(context.Background(), joined))
+		if (errS == nil) != (other == t) {
+			viol("single-resolver", fmt.Sprintf("TenantID on %q: error %v, identifiers all equal: %v", joined, errS, other == t), d())
+		}
+	})
 	run.ForEach("random-bytes", vt.N(30000, 600000), func(c vt.CaseID, rng *rand.Rand, s *vt.Slot) {
 		l := rng.IntN(12)
 		if rng.IntN(20) == 0 {
